@@ -12,7 +12,7 @@ import (
 )
 
 func ruleEOFBreak(c *Ctx) {
-	c.Rule("EOF-BREAK", "A code block's text is its lines with their line endings; the last line of the input may lack one, and the parser stands in a zero-width soft line break node (Start = End) for it so that the block renders the same with and without a final line ending. Somewhere in package commonmark such a node is created for each of the two code block kinds: collecting, over all sites that build a soft line break whose Start and End are the same term, the block kinds for which the site is reachable (a site inside blockRules[K].onClose counts for K only; elsewhere branches on ContainerKind() / Kind() are decided per kind, all other branches both ways), the union contains IndentedCodeBlockKind and FencedCodeBlockKind. Without the node for one kind, \"```\\nfoo\" and \"```\\nfoo\\n\" render differently.")
+	c.Rule("EOF-BREAK", "A code block's text is its lines with their line endings; the last line of the input may lack one, and the parser stands in a zero-width soft line break node (Start = End) for it so that the block renders the same with and without a final line ending. Somewhere in package commonmark such a node is created for each of the two code block kinds: collecting, over all sites that build a soft line break whose Start and End are the same term, the block kinds for which the site is reachable (a site inside blockRules[K].onClose counts for K only; elsewhere the dominating conditions over a kind-valued call are decided per kind — conditions over the same call intersected, different calls united, everything else ignored), the union contains IndentedCodeBlockKind and FencedCodeBlockKind. Without the node for one kind, \"```\\nfoo\" and \"```\\nfoo\\n\" render differently.")
 	p := c.P
 	sbK, _ := kindValue(p, "InlineKind", "SoftLineBreakKind")
 	indK, _ := kindValue(p, "BlockKind", "IndentedCodeBlockKind")
@@ -32,7 +32,6 @@ func ruleEOFBreak(c *Ctx) {
 		if fn.Pkg != p.CMs || fn.Blocks == nil {
 			continue
 		}
-		var reach map[*ssa.BasicBlock]map[int64]bool
 		eachInstr(fn, func(in ssa.Instruction) {
 			al, ok := in.(*ssa.Alloc)
 			if !ok || typeName(deref(al.Type())) != "Inline" {
@@ -72,7 +71,7 @@ func ruleEOFBreak(c *Ctx) {
 					}
 				}
 			}
-			if startV == nil || endV == nil || !(startV == endV || sameTerm(startV, endV)) {
+			if startV == nil || endV == nil || !(startV == endV || sameTerm(startV, endV) || termKey(startV, 0) == termKey(endV, 0)) {
 				return
 			}
 			nSites++
@@ -87,19 +86,80 @@ func ruleEOFBreak(c *Ctx) {
 					return
 				}
 			}
-			if reach == nil {
-				isSym := func(v ssa.Value) bool {
-					cl, ok := v.(*ssa.Call)
-					if !ok || cl.Call.StaticCallee() == nil {
-						return false
-					}
-					n := cl.Call.StaticCallee().Name()
-					return (n == "ContainerKind" || n == "Kind" || n == "TipKind") && typeName(cl.Type()) == "BlockKind"
+			// kinds admitted by the conditions that dominate the site: per kind-valued call the conditions over it are
+			// intersected, different calls (the container's kind, the tip's kind) are united — an over-approximation
+			isKindCall := func(v ssa.Value) bool {
+				cl, ok := v.(*ssa.Call)
+				if !ok || cl.Call.StaticCallee() == nil {
+					return false
 				}
-				reach = bs.reachUnderSym(fn, isSym, dom)
+				return typeName(cl.Type()) == "BlockKind"
+			}
+			allowed := map[ssa.Value]map[int64]bool{}
+			for id := al.Block().Idom(); id != nil; id = id.Idom() {
+				iff := blockIf(id)
+				if iff == nil {
+					continue
+				}
+				e0, e1 := edgeDominates(id, 0, al.Block()), edgeDominates(id, 1, al.Block())
+				if e0 == e1 {
+					continue
+				}
+				// the kind calls the condition mentions
+				syms := map[ssa.Value]bool{}
+				seenV := map[ssa.Value]bool{}
+				var collect func(v ssa.Value, d int)
+				collect = func(v ssa.Value, d int) {
+					if v == nil || seenV[v] || d > 8 {
+						return
+					}
+					seenV[v] = true
+					if isKindCall(v) {
+						syms[v] = true
+						return
+					}
+					if in, ok := v.(ssa.Instruction); ok {
+						for _, op := range in.Operands(nil) {
+							if op != nil && *op != nil {
+								collect(*op, d+1)
+							}
+						}
+					}
+				}
+				collect(iff.Cond, 0)
+				if len(syms) != 1 {
+					continue
+				}
+				var sym ssa.Value
+				for v := range syms {
+					sym = v
+				}
+				for _, d := range dom {
+					st := &evalState{e: bs, fn: fn, d: d, isSym: func(v ssa.Value) bool { return v == sym }, from: make([]int, len(fn.Blocks)), noLoopPhi: true}
+					for i := range st.from {
+						st.from[i] = -2
+					}
+					v, ok := st.eval(iff.Cond)
+					admits := !ok || (v != 0) == e0
+					if allowed[sym] == nil {
+						allowed[sym] = map[int64]bool{}
+						for _, dd := range dom {
+							allowed[sym][dd] = true
+						}
+					}
+					if !admits {
+						allowed[sym][d] = false
+					}
+				}
 			}
 			for _, d := range dom {
-				if reach[al.Block()][d] {
+				ok := len(allowed) == 0
+				for _, m := range allowed {
+					if m[d] {
+						ok = true
+					}
+				}
+				if ok {
 					covered[d] = append(covered[d], site)
 				}
 			}
